@@ -46,7 +46,33 @@ func (r ItemResult) key() string {
 	return string(b)
 }
 
-func runItem(it *Item) (r ItemResult) {
+// chunkReader delivers at most n bytes per Read.
+type chunkReader struct {
+	data []byte
+	n    int
+}
+
+func (c *chunkReader) Read(p []byte) (int, error) {
+	if len(c.data) == 0 {
+		return 0, io.EOF
+	}
+	k := c.n
+	if k > len(p) {
+		k = len(p)
+	}
+	if k > len(c.data) {
+		k = len(c.data)
+	}
+	copy(p, c.data[:k])
+	c.data = c.data[k:]
+	return k, nil
+}
+
+func runItem(it *Item) ItemResult { return runItemChunked(it, 0) }
+
+// runItemChunked executes the item with its inputs delivered chunk bytes per
+// read (0: everything at once): how the bytes arrive is not part of the input.
+func runItemChunked(it *Item, chunk int) (r ItemResult) {
 	var out bytes.Buffer
 	func() {
 		defer func() {
@@ -56,7 +82,11 @@ func runItem(it *Item) (r ItemResult) {
 		}()
 		files := make([]lang.InputFile, len(it.Inputs))
 		for i, in := range it.Inputs {
-			files[i] = lang.InputFile{Name: in.Name, Reader: bytes.NewReader(in.Data)}
+			if chunk > 0 {
+				files[i] = lang.InputFile{Name: in.Name, Reader: &chunkReader{data: append([]byte(nil), in.Data...), n: chunk}}
+			} else {
+				files[i] = lang.InputFile{Name: in.Name, Reader: bytes.NewReader(in.Data)}
+			}
 		}
 		ev, err := lang.EvalProgram(it.Prog, files, it.Selectors, &out, false)
 		r.Kind, r.Msg = classifyErr(err)
@@ -80,8 +110,9 @@ func runItem(it *Item) (r ItemResult) {
 }
 
 type runItemsReq struct {
-	Items []Item `json:"items"`
-	Order []int  `json:"order"`
+	Items  []Item `json:"items"`
+	Order  []int  `json:"order"`
+	Chunks []int  `json:"chunks,omitempty"` // per execution: bytes per read (0: all at once)
 }
 
 // runitemsMain: subprocess entry. Executes the requested sequence in this
@@ -95,7 +126,11 @@ func runitemsMain() int {
 	}
 	res := make([]ItemResult, len(req.Order))
 	for i, idx := range req.Order {
-		res[i] = runItem(&req.Items[idx])
+		chunk := 0
+		if i < len(req.Chunks) {
+			chunk = req.Chunks[i]
+		}
+		res[i] = runItemChunked(&req.Items[idx], chunk)
 	}
 	out, _ := json.Marshal(res)
 	os.Stdout.Write(out)
@@ -163,7 +198,12 @@ func runHistCase(c *HistCase, keep bool) Outcome {
 	case "repeat":
 		it := c.Items[0]
 		order := make([]int, c.K)
-		same, err := spawnRunItems(&runItemsReq{Items: c.Items, Order: order}, nil)
+		// the same bytes, delivered in different ways
+		chunks := make([]int, c.K)
+		for i := range chunks {
+			chunks[i] = []int{0, 1, 0, 2, 3, 0, 7, 64}[i%8]
+		}
+		same, err := spawnRunItems(&runItemsReq{Items: c.Items, Order: order, Chunks: chunks}, nil)
 		if err != nil {
 			return harness(err)
 		}
@@ -283,9 +323,16 @@ func shapeOfItem(it *Item) string {
 // never a method name of any prototype: assigning such a member is known finding K3
 var histKeys = []string{"alpha", "beta", "gamma", "delta", "eps", "zeta", "eta", "theta", "iota", "kappa", "lam", "mu", "nu", "xi"}
 
+// keys that look alike under some orderings: equal as numbers, equal ignoring
+// case, equal up to length, prefixes of each other
+var histTieKeys = []string{"1", "1.0", "01", "1e0", "10", "9", "a", "A", "ab", "aB", "Ab", " a", "a ", "é", "e", "", "-1", "-01", "0", "-0", "00", "x1", "x01", "x10", "x9"}
+
 func genObjText(t *Tape, minKeys, maxKeys int, nest bool) string {
 	n := minKeys + t.Draw(maxKeys-minKeys+1)
 	perm := append([]string(nil), histKeys...)
+	if t.Chance(1, 4) {
+		perm = append([]string(nil), histTieKeys...)
+	}
 	// seeded shuffle
 	for i := len(perm) - 1; i > 0; i-- {
 		j := t.Draw(i + 1)
@@ -337,17 +384,37 @@ func genItem(t *Tape) Item {
 		}
 	}
 	it.Inputs = []ProgInput{{Name: "in.json", Data: QBytes(doc())}}
+	switch t.Weighted(12, 1, 1, 1) {
+	case 1:
+		// a byte order mark in front: an error, however the bytes arrive
+		it.Inputs[0].Data = append(QBytes("\xef\xbb\xbf"), it.Inputs[0].Data...)
+	case 2:
+		it.Inputs[0].Data = append(QBytes(" \n\t"), it.Inputs[0].Data...)
+	case 3:
+		it.Inputs[0].Data = append(it.Inputs[0].Data, []byte("\n12 \"tail\" null")...)
+	}
 	if t.Chance(1, 6) {
 		it.Inputs = append(it.Inputs, ProgInput{Name: "in2.json", Data: QBytes(doc())})
 	}
 	k1, k2 := histKeys[t.Draw(len(histKeys))], histKeys[t.Draw(len(histKeys))]
-	switch t.Weighted(5, 5, 3, 3, 3, 2, 2, 2, 2, 2, 2, 1, 1, 4, 2, 3, 2) {
+	switch t.Weighted(5, 5, 3, 3, 3, 2, 2, 2, 2, 2, 2, 1, 1, 4, 2, 3, 2, 4) {
 	case 13:
 		// regular expressions: literal and string forms, patterns that share
 		// prefixes and lengths (a process-level cache keyed too coarsely shows here)
 		pats := []string{"^al", "^alp", "^alpha$", "a$", "a$|u$", "eta", "eta$", "^(be|ga)", "^(be|ga|de)", "^.a", "^.e", "^...$", "^....$", "[aeiou]{2}", "[aeiou]t", "^[a-m]", "^[n-z]", "mu|nu", "mu|xi"}
 		p1, p2 := pats[t.Draw(len(pats))], pats[t.Draw(len(pats))]
 		it.Prog = fmt.Sprintf("{ for (k, v in $) { if (k ~ /%s/) { print \"m1\", k }\n if (k !~ \"%s\") { print \"n2\", k } } }", p1, p2)
+	case 17:
+		// programs that use the names of built-in functions as ordinary variables,
+		// and programs that rely on those built-ins
+		it.Prog = []string{
+			"{ num = 5\n print num }",
+			"{ for (json in $) { print json } }",
+			"BEGIN { printf++\n print printf }",
+			"{ print num(\"12\"), json([1]), num(\"x\") }\nEND { printf(\"%s\\n\", \"end\") }",
+			"function num2(v) { return num(v) }\n{ print num2(\"7\") }",
+			"{ json = 1\n num = 2\n printf = 3\n print json + num + printf }",
+		}[t.Draw(6)]
 	case 15:
 		// printf that fails part-way through its format (at the first non-number value), after earlier successes
 		it.Prog = "{ for (k, v in $) { printf(\"%s=%f;\\n\", k, v) } }\nEND { printf(\"done %s\\n\", \"x\") }"
